@@ -101,6 +101,8 @@ pub struct World {
   pub yield_hits: Vec<usize>,
   pub yield_handler: Option<Box<dyn FnMut(usize)>>,
   pub in_yield: bool,
+  /// harness callback run from inside every probe notification (after it was logged)
+  pub on_probe_event: Option<Box<dyn FnMut(&Ev)>>,
 }
 
 thread_local! {
@@ -241,6 +243,16 @@ impl Probe {
       Some(Bad::Overlap) => e::fail("overlapping-callback", || format!("probe {} entered on two logical threads at once", id)),
       Some(Bad::Lockset) => e::fail("lockset/callback-without-slot-lock", || format!("probe {} called without its slot lock held", id)),
       None => {}
+    }
+    // a harness action from inside the subscriber's handler (e.g. another thread polling a waiter)
+    let hook = w(|w| w.on_probe_event.take());
+    if let Some(mut h) = hook {
+      h(&ev);
+      w(|w| {
+        if w.on_probe_event.is_none() {
+          w.on_probe_event = Some(h)
+        }
+      });
     }
     // a pre-emption point inside the callback (only acts in threaded harnesses)
     let threaded = w(|w| w.threads.enabled);
